@@ -62,6 +62,23 @@ def py_depth0(s, ch):
     return False
 
 
+def py_count_depth0(s, lit):
+    """Mirror of `countDepth0 lit s []` (Notation/Grammar.lean): occurrences of `lit` where the bracket scan has an empty stack."""
+    st, n = [], 0
+    for i, c in enumerate(s):
+        if not st and s.startswith(lit, i):
+            n += 1
+        if c == "(":
+            st.insert(0, ")")
+        elif c == "[":
+            st.insert(0, "]")
+        elif c in ")]":
+            if not st or st[0] != c:
+                return n
+            st.pop(0)
+    return n
+
+
 # ------------------------------------------------------------------ valid base calls, structured
 
 def _names(rng, k):
@@ -307,6 +324,122 @@ def parser_case(rng, rule):
 
 
 PARSER_RULES = ["parse_rejects_bad_char", "parse_rejects_unbalanced", "parse_rejects_unwrapped_concat"]
+
+# Props/C03Grammar.lean (driver kind `grammar_spec`)
+GRAMMAR_RULES = ["parse_rejects_multiple_arrows", "parse_args_rejects_arrow"]
+# error kinds of the stages up to `parse` (lexer, delimiter stack, `parse`): exactly these mean "not WF0"
+STAGE0_KINDS = ("invalidToken", "closingNotOpened", "openingNotClosed", "concatOperand", "concatNotWrapped", "invalidExpr", "invalidExpr+ws")
+
+
+def grammar_case(rng, rule):
+    """-> description with the string-level defect of a rule of Props/C03Grammar.lean by construction."""
+    fam = rng.choice(c07.FAMILIES)
+    if rule == "parse_rejects_multiple_arrows":
+        # two `->` outside all delimiters: a valid call with a written output plus one more arrow at a depth-0 position
+        call = _copy(base_call(rng, fam))
+        if call["outs"] is None:
+            call["outs"] = [[d for d in call["ins"][0] if re.fullmatch(r"[a-z]", d)]]
+        desc = render(call) if rng.random() < 0.7 else c12.gen_description(rng) + " -> " + call["fresh"][0]
+        slots = [k for k in range(len(desc) + 1) if py_scan(desc[:k]) == "" and not (k > 0 and desc[k - 1] == "-" and desc[k:k + 1] == ">")]
+        k = rng.choice(slots)
+        cand = desc[:k] + rng.choice(["->", " -> ", " -> " + call["fresh"][1] + " ", "-> 1"]) + desc[k:]
+        return cand if py_count_depth0(cand, "->") >= 2 else "a -> b -> c"
+    if rule == "parse_args_rejects_arrow":
+        # a `->` outside all delimiters in a description given to `parse_args`: mostly an otherwise valid operation description
+        call = _copy(base_call(rng, fam))
+        if call["outs"] is None:
+            call["outs"] = [[d for d in call["ins"][0] if re.fullmatch(r"[a-z]", d)]]
+        r = rng.random()
+        if r < 0.6:
+            cand = render(call)
+        elif r < 0.8:
+            cand = rng.choice(["->", "a ->", "-> a", "a b -> (a b)", "a [b] -> a", "a... -> a..."])
+        else:
+            d = c12.gen_description(rng)
+            slots = [k for k in range(len(d) + 1) if py_scan(d[:k]) == ""]
+            k = rng.choice(slots)
+            cand = d[:k] + " -> " + d[k:]
+        return cand if py_count_depth0(cand, "->") >= 1 else "a -> b"
+    raise core.MachineryError(f"no generator for rule {rule}")
+
+
+def run_grammar(ctx, c03, n_per_rule, found, drv):
+    """Stream R for Props/C03Grammar.lean: the two string-level rules, and the layer-0 grammar (`parse_stage_ok_iff`): on mixed
+    valid / corrupted descriptions the model's `parseStage` succeeds exactly when the real parser gets past `parse` (returns a tree
+    or raises one of the errors of the later passes)."""
+    rng = ctx.rng
+    disagreements = 0
+    for rule in GRAMMAR_RULES:
+        texts = []
+        for _ in range(n_per_rule):
+            t = grammar_case(rng, rule)
+            if t not in texts:
+                texts.append(t)
+        answers = drv.ask_many([{"kind": "grammar_spec", "text": t} for t in texts]) if drv else [None] * len(texts)
+        entry = "op" if rule == "parse_rejects_multiple_arrows" else "args"
+        for t, m in zip(texts, answers):
+            ctx.count(f"R:{rule}")
+            ctx.case(("R", rule, t), nontrivial=True)
+            real = c12.real_parse(t, entry)
+            mine = py_count_depth0(t, "->")
+            if m is not None:
+                if m["arrows0"] != mine:
+                    ctx.tie_broken("correspondence:spec-predicate", f"countDepth0 '->' on {t!r}: Lean {m['arrows0']}, harness {mine}")
+                if rule == "parse_rejects_multiple_arrows":
+                    hyp = m["arrows0"] >= 2
+                    concl = m["parse"].get("error") == "syntax"
+                    model = m["parse"]
+                else:
+                    hyp = m["arrows0"] >= 1
+                    # never a tree; exactly l.412 whenever parse_op accepts
+                    concl = m["args"].get("error") == "syntax" and ("ok" not in m["parse"] or m["args"].get("kind") == "argsHasArrow") \
+                        and m["arg"].get("error") == "syntax"
+                    model = m["args"]
+                if not hyp:
+                    ctx.tie_broken("correspondence:spec-predicate", f"{rule}: the Lean predicate does not see the defect built into {t!r}")
+                elif not concl:
+                    ctx.tie_broken(f"theorem-instance:{rule}", f"model outcome {json.dumps(model)[:160]} on {t!r} contradicts the theorem")
+                d = c12.compare(real, model)
+                if d is not None:
+                    disagreements += 1
+                    if disagreements <= 5:
+                        ctx.tie_broken("correspondence:rule-site", f"{rule} {t!r}: {d}")
+            ctx.count(f"R-real:{rule}:{real.get('kind', real.get('error', 'ok'))}")
+            ops = ["id", "sum", "add", "dot", "get_at", "argmax", "sort", "set_at"] if rule == "parse_rejects_multiple_arrows" else ["solve_axes"]
+            _oracle(ctx, c03, rule, rng.choice(ops), t, "SyntaxError", found)
+
+    # ---- layer 0 of the grammar: `parseStage` ok  <=>  the real parser gets past `parse`
+    texts = []
+    for _ in range(4 * n_per_rule):
+        fam = rng.choice(c07.FAMILIES)
+        d = render(base_call(rng, fam)) if rng.random() < 0.4 else c12.gen_description(rng)
+        r = rng.random()
+        if r < 0.5 and d:
+            k = rng.randint(0, len(d))
+            d = d[:k] + rng.choice(["+", "...", "(", ")", "[", "]", " ", ",", "->", "a", "1", "(a + b)", "[]", "()"]) + d[k:]
+        elif r < 0.65 and d:
+            k = rng.randrange(len(d))
+            d = d[:k] + d[k + 1:]
+        if d not in texts:
+            texts.append(d)
+    answers = drv.ask_many([{"kind": "grammar_spec", "text": t} for t in texts]) if drv else []
+    for t, m in zip(texts, answers):
+        ctx.count("R:parse_stage_ok_iff")
+        real = c12.real_parse(t, "op")
+        past = "ok" in real or (real.get("error") == "syntax" and real.get("kind") not in STAGE0_KINDS)
+        ctx.case(("R", "parse_stage_ok_iff", t), nontrivial=True)
+        ctx.count(f"R-stage0:{'wf0' if m['stage_ok'] else 'not-wf0'}")
+        if real.get("error") == "other":
+            continue            # internal outcome of the real parser: reported by the C12 correspondence / search
+        if m["stage_ok"] != past:
+            disagreements += 1
+            if disagreements <= 5:
+                ctx.tie_broken("correspondence:grammar-stage0", f"{t!r}: model parseStage {'succeeds' if m['stage_ok'] else 'fails'}, real parse_op: "
+                               f"{real.get('kind', 'tree')}")
+        if ("ok" in m["parse"]) and not m["stage_ok"]:
+            ctx.tie_broken("theorem-instance:parse_ok_wf", f"model accepts {t!r} but parseStage fails")
+    return disagreements
+
 UNBALANCED_KINDS = ("invalidToken", "closingNotOpened", "openingNotClosed")
 
 
@@ -442,20 +575,22 @@ def run(ctx, c03, n_per_rule):
         if cases:
             ctx.sample({"rule": rule, "family": cases[0][0], "call": f"einx.{cases[0][1]}({cases[0][2]!r}, ...)", "real _parse_op": c07.real_parse_op(cases[0][0], cases[0][2])}, cap=40)
 
+    disagreements += run_grammar(ctx, c03, n_per_rule, found, drv)
+
     ctx.extra["rule_stream_disagreements"] = disagreements
     for key in sorted(found):
         ex, got = found[key]
         rule = key[0]
-        want = "SyntaxError" if rule in PARSER_RULES else "SemanticError"
+        want = "SyntaxError" if rule in PARSER_RULES + GRAMMAR_RULES else "SemanticError"
         ctx.violation(f"rule {rule} not enforced: {got.split(' @ ')[0]} instead of {want} | {c03.fmt_example(ex)}",
                       {"kind": "rule-call", "rule": rule, "example": ex, "call": c03.fmt_example(ex), "observed": got,
-                       "expected": f"einx.errors.{want} before any numpy call on the arguments (theorem {rule} of Props/C03{'Reject' if rule in PARSER_RULES else 'Elab'}.lean on the model)"})
+                       "expected": f"einx.errors.{want} before any numpy call on the arguments (theorem {rule} of Props/C03{'Reject' if rule in PARSER_RULES else 'Grammar' if rule in GRAMMAR_RULES else 'Elab'}.lean on the model)"})
 
 
 def replay(c03, r):
     ex = r["example"]
     ex["shapes"] = [s if s in ("scalar", None) else tuple(s) for s in ex["shapes"]]
-    want = "SyntaxError" if r["rule"] in PARSER_RULES else "SemanticError"
+    want = "SyntaxError" if r["rule"] in PARSER_RULES + GRAMMAR_RULES else "SemanticError"
     now = c03.run_example(ex)
     print("now:", {k: now.get(k) for k in ("outcome", "name", "msg", "verdict", "log")})
     still = not (now["outcome"] == "raise" and now["name"] == want and not now["log"])
